@@ -6,7 +6,6 @@ from sa.selftest import all_pids
 
 NA = {
  "C12": "not claimed: the normalising-default clauses (R13b of DESIGN 3) and the shape contract of the mixing-weight parameter were not built; Z == 1 itself is numerical. See DESIGN.md section 10.",
- "C13": "gradient values are the numerical semantics of autograd; the only structural clause (no gradient-severing construct) is not a sound necessary condition (detaching the log-sum-exp shift is behaviour-preserving). See DESIGN.md section 4, C13.",
 }
 checks = []
 for pid in all_pids():
